@@ -91,7 +91,11 @@ def deactivate (s : State) (p : Nat) : State × Out :=
   match s.probes[p]? with
   | none => (s, .notActive)
   | some pr =>
-    if !pr.active then (s, .notActive)
+    if !pr.active then
+      -- refused (`global_probes.remove` raises) — but the stream's `__exit__` has run first: stages attached
+      -- since the stream completed are completed now
+      ({ s with completed := s.completed ++ pr.stages.map fun st => (p, st),
+                probes := modifyNth s.probes p fun pr => { pr with stages := [] } }, .notActive)
     else
       ({ s with fns := popAll s.fns pr.spec.targets,
                 current := s.current.filter (· != p),
